@@ -1802,8 +1802,7 @@ theorem LBase.ofValid {P : Program} {depth : Node → Nat} (hp : LiveP P depth) 
       rw [hr, posOf_append_self pre post m hmpre] at hlt
       have := posOf_lt_mem pre (m :: post) u hlt
       exact hnd'.2.2 u this u hmem rfl
-    · simp only [Bool.and_eq_true, List.contains_iff_mem, heu, hev, huo, hmo, true_and, Bool.or_eq_true]
-      right
+    · simp only [Bool.and_eq_true, List.contains_iff_mem, heu, hev, huo, hmo, true_and]
       refine ⟨by rw [hcase]; rfl, ?_⟩
       have := hp.noCands e he
       rw [hev, heu] at this
